@@ -5423,7 +5423,7 @@ int cgi_read_units_node(int in_link, cgns_units** units)
     /* change from Celcius to Celsius */
     if (0 == strncmp(&string_data[96], "Celcius", 7)) {
         string_data[99] = 's';
-        if (cg->mode == CG_MODE_MODIFY && !in_link) {
+        if (cg->mode == CG_MODE_MODIFY && !in_link && !units[0]->link) {
             if (cgio_write_all_data(cg->cgio, units[0]->id, string_data)) {
                 cg_io_error("cgio_write_all_data");
                 return CG_ERROR;
